@@ -2,8 +2,10 @@
    C06/Proofs.v (Calc.v, Lin.v, Leaves.v) and followed by Print Assumptions.
 
    The model (C06/Model.v): [oexpr] = the ten expression classes of
-   odl/operator/operator.py over the leaf operators of default_ops.py /
-   ufunc_ops.py; [eval] = _call; [derivative] = the .derivative methods
+   odl/operator/operator.py and the block operators BroadcastOperator /
+   ReductionOperator / DiagonalOperator of pspace_ops.py (any number of blocks;
+   product-space elements are flat lists) over the leaf operators of
+   default_ops.py / ufunc_ops.py; [eval] = _call; [derivative] = the .derivative methods
    (with the "linear => self" shortcuts, the inner points, the overloads used
    to assemble the result); [deriv_ok] = whether the call returns or raises;
    [is_lin] = the flag computed by the constructors; [wt] = their space checks.
@@ -29,8 +31,8 @@ From Verif Require Import Base.Num Base.Vec C06.Syntax Gen.UfuncDeriv C06.Model 
 Import ListNotations.
 Local Open Scope R_scope.
 
-(* T1. For EVERY expression tree e (any depth, any mix of the ten classes and of
-   the leaves), every point x at which derivative(x) returns and which is
+(* T1. For EVERY expression tree e (any depth, any mix of the thirteen classes,
+   any number of blocks, any leaves), every point x at which derivative(x) returns and which is
    regular: the returned object D
      (1) evaluates to the Frechet/Hadamard derivative of e at x,
      (2) is a (bounded) linear map from e.domain to e.range,
@@ -38,7 +40,8 @@ Local Open Scope R_scope.
      (5,6) has the domain and range of e.
    User-defined leaves [LAbs k] are arbitrary: the only premise is that THEIR
    derivative is right (af k / ad k); everything the combinators add -- which
-   inner point, which scalar multiplies what, linear shortcuts -- is proved. *)
+   inner point, which scalar multiplies what, which block of the point goes to
+   which block operand, linear shortcuts -- is proved. *)
 Theorem derivative_is_frechet :
   forall (af : nat -> list R -> list R) (ad : nat -> list R -> list R -> list R) (adm arn : nat -> space),
   (forall k x, length x = sdim (adm k) ->
